@@ -8,11 +8,15 @@
     * `idle_worker_kept`                   running ∧ nobody out of the list → 1 ≤ idle.length
     * `reaper_spares_protected`            the nodes[:target] of the live pass stay in the pool
     * `idle_nodup`                         no node is in the idle list twice
+    * `out_nodup`, `idle_out_disjoint`     no node is out twice; no node is both idle and out
+    * `reaper_keeps_minimum`               counted form: prot.length ≤ idle.length + out.length while a pass of
+                                           the live reaper is under way (the reaper never goes below the minimum)
   About a single step of the current code:
     * `reaper_removes_only_beyond_target`  a successful Remove: by the reaper of the current run, while
                                            its stop channel is open, of a node of nodes[target:]
     * `ended_run_cannot_remove`            the reaper of an ended run removes nothing (fix b9eba0f)
     * `snapshot_split`                     the pass is nodes[:t] / nodes[t:] with t ≥ 1
+    * `snapshot_protects_min`              … so the new pass protects min t idle.length nodes
   The defect of the reaper before b9eba0f, as a theorem about `Reach true`:
     * `old_reaper_can_empty_the_pool`      a running pool with nobody out and an empty idle list (`oldRun`)
   Non-vacuity: `oldRun` is rejected by the current code and accepted by the old one; a live pass with
@@ -22,7 +26,10 @@
   Invariant: the idle list has no duplicates; a reaper that is not live has no pass; a running pool has
   an idle worker or a worker that is out; and while the pool runs and its reaper is live, the protected
   part of the pass is non-empty whenever there are candidates, is disjoint from the candidates, and
-  all of it is still in the pool (idle or out).
+  all of it is still in the pool (idle or out). For the counting argument of `reaper_keeps_minimum`:
+  `outNodup` (the out list has no duplicates), `disj` (no idle node is out) and `protNodup` (the protected
+  part of a pass has no duplicates); a duplicate-free `prot` contained in the duplicate-free union of
+  `idle` and `out` is no longer than it (`length_le_of_nodup_subset`).
 -/
 import VarmqVerif.Model.Reap
 
@@ -66,6 +73,29 @@ theorem take_ne_nil_of_drop_ne_nil {l : List Nat} {t : Nat} (ht : t ≠ 0) (hd :
   · subst h0
     simp at hd
 
+theorem length_le_of_nodup_subset {l m : List Nat} (hn : l.Nodup) (hs : ∀ x ∈ l, x ∈ m) :
+    l.length ≤ m.length := by
+  induction l generalizing m with
+  | nil => simp
+  | cons a l ih =>
+    rw [List.nodup_cons] at hn
+    have ha : a ∈ m := hs a (by simp)
+    have h1 : l.length ≤ (m.erase a).length := by
+      apply ih hn.2
+      intro x hx
+      have hxa : x ≠ a := fun e => hn.1 (e ▸ hx)
+      exact (List.mem_erase_of_ne hxa).mpr (hs x (by simp [hx]))
+    have h2 := List.length_erase_of_mem ha
+    have h3 : 0 < m.length := List.length_pos_of_mem ha
+    simp only [List.length_cons]
+    omega
+
+theorem not_mem_dropLast_of_getLast? {l : List Nat} {n : Nat} (hn : l.Nodup) (h : l.getLast? = some n) :
+    n ∉ l.dropLast := by
+  intro hm
+  rw [← dropLast_append_of_getLast? h, List.nodup_append] at hn
+  exact hn.2.2 n hm n (by simp) rfl
+
 /-! ## The invariant -/
 
 structure J (s : State) : Prop where
@@ -75,12 +105,15 @@ structure J (s : State) : Prop where
   spared : s.running = true → s.live = true → ∀ p, s.pass = some p →
     (∀ x ∈ p.prot, x ∈ s.idle ∨ x ∈ s.out) ∧ (∀ x ∈ p.cand, x ∉ p.prot) ∧
     (p.cand ≠ [] → p.prot ≠ [])
+  outNodup : s.out.Nodup
+  disj : ∀ x ∈ s.idle, x ∉ s.out
+  protNodup : ∀ p, s.pass = some p → p.prot.Nodup
 
 theorem J_init : J init := by
-  refine ⟨?_, ?_, ?_, ?_⟩ <;> simp [init]
+  refine ⟨?_, ?_, ?_, ?_, ?_, ?_, ?_⟩ <;> simp [init]
 
 theorem J_step {s s' : State} (e : Ev) (hJ : J s) (h : step false s e = .ok s') : J s' := by
-  obtain ⟨hnd, hdead, hfed, hsp⟩ := hJ
+  obtain ⟨hnd, hdead, hfed, hsp, hond, hdj, hpn⟩ := hJ
   cases e with
   | start n =>
     simp only [step] at h
@@ -94,7 +127,7 @@ theorem J_step {s s' : State} (e : Ev) (hJ : J s) (h : step false s e = .ok s') 
         · rename_i hin
           cases h
           simp at hlive hin
-          refine ⟨?_, ?_, ?_, ?_⟩
+          refine ⟨?_, ?_, ?_, ?_, hond, ?_, ?_⟩
           · show (s.idle ++ [n]).Nodup
             rw [List.nodup_append]
             refine ⟨hnd, by simp, ?_⟩
@@ -112,6 +145,17 @@ theorem J_step {s s' : State} (e : Ev) (hJ : J s) (h : step false s e = .ok s') 
             have : s.pass = some p := hp
             rw [hdead hlive] at this
             cases this
+          · intro x hx
+            have hx' : x ∈ s.idle ++ [n] := hx
+            simp at hx'
+            rcases hx' with hi | he
+            · exact hdj x hi
+            · subst he
+              exact hin.2
+          · intro p hp
+            have : s.pass = some p := hp
+            rw [hdead hlive] at this
+            cases this
   | take n =>
     simp only [step] at h
     split at h
@@ -119,9 +163,10 @@ theorem J_step {s s' : State} (e : Ev) (hJ : J s) (h : step false s e = .ok s') 
     · rename_i hlast
       split at h
       · cases h
-      · cases h
-        simp at hlast
-        refine ⟨?_, hdead, ?_, ?_⟩
+      · rename_i hno
+        cases h
+        simp at hlast hno
+        refine ⟨?_, hdead, ?_, ?_, ?_, ?_, hpn⟩
         · exact List.Nodup.sublist (List.dropLast_sublist _) hnd
         · intro _
           exact Or.inr (by simp)
@@ -135,12 +180,24 @@ theorem J_step {s s' : State} (e : Ev) (hJ : J s) (h : step false s e = .ok s') 
             · exact Or.inl hd
             · exact Or.inr (by simp [he])
           · exact Or.inr (by simp [ho])
+        · show (n :: s.out).Nodup
+          exact List.nodup_cons.mpr ⟨hno, hond⟩
+        · intro x hx
+          have hx' : x ∈ s.idle.dropLast := hx
+          show x ∉ n :: s.out
+          intro hm
+          rcases List.mem_cons.mp hm with he | ho
+          · subst he
+            exact not_mem_dropLast_of_getLast? hnd hlast hx'
+          · exact hdj x ((List.dropLast_sublist _).subset hx') ho
   | create n =>
     simp only [step] at h
     split at h
     · cases h
-    · cases h
-      refine ⟨hnd, hdead, ?_, ?_⟩
+    · rename_i hin
+      cases h
+      simp at hin
+      refine ⟨hnd, hdead, ?_, ?_, ?_, ?_, hpn⟩
       · intro _
         exact Or.inr (by simp)
       · intro hr hl p hp
@@ -151,6 +208,16 @@ theorem J_step {s s' : State} (e : Ev) (hJ : J s) (h : step false s e = .ok s') 
         rcases h1 x hx with hi | ho
         · exact Or.inl hi
         · exact Or.inr (by simp [ho])
+      · show (n :: s.out).Nodup
+        exact List.nodup_cons.mpr ⟨hin.2, hond⟩
+      · intro x hx
+        have hx' : x ∈ s.idle := hx
+        show x ∉ n :: s.out
+        intro hm
+        rcases List.mem_cons.mp hm with he | ho
+        · subst he
+          exact hin.1 hx'
+        · exact hdj x hx' ho
   | back n =>
     simp only [step] at h
     split at h
@@ -160,7 +227,7 @@ theorem J_step {s s' : State} (e : Ev) (hJ : J s) (h : step false s e = .ok s') 
       · rename_i hni
         cases h
         simp at hni
-        refine ⟨?_, hdead, ?_, ?_⟩
+        refine ⟨?_, hdead, ?_, ?_, ?_, ?_, hpn⟩
         · show (s.idle ++ [n]).Nodup
           rw [List.nodup_append]
           refine ⟨hnd, by simp, ?_⟩
@@ -182,6 +249,15 @@ theorem J_step {s s' : State} (e : Ev) (hJ : J s) (h : step false s e = .ok s') 
           · by_cases hxn : x = n
             · exact Or.inl (by simp [hxn])
             · exact Or.inr ((List.mem_erase_of_ne hxn).mpr ho)
+        · exact hond.erase n
+        · intro x hx
+          have hx' : x ∈ s.idle ++ [n] := hx
+          show x ∉ s.out.erase n
+          intro hm
+          simp at hx'
+          rcases hx' with hi | he
+          · exact hdj x hi (List.mem_of_mem_erase hm)
+          · exact ((List.Nodup.mem_erase_iff hond).mp hm).1 he
   | snap r t =>
     simp only [step] at h
     split at h
@@ -193,7 +269,7 @@ theorem J_step {s s' : State} (e : Ev) (hJ : J s) (h : step false s e = .ok s') 
         · rename_i hcur
           cases h
           simp at ht hcur
-          refine ⟨hnd, ?_, hfed, ?_⟩
+          refine ⟨hnd, ?_, hfed, ?_, hond, hdj, ?_⟩
           · intro hl
             have : s.live = false := hl
             rw [hcur.2] at this
@@ -206,9 +282,13 @@ theorem J_step {s s' : State} (e : Ev) (hJ : J s) (h : step false s e = .ok s') 
               exact Or.inl (List.mem_of_mem_take hx)
             · exact take_drop_disjoint hnd t
             · exact take_ne_nil_of_drop_ne_nil ht
+          · intro p hp
+            have hp' : some { prot := s.idle.take t, cand := s.idle.drop t : Pass } = some p := hp
+            cases hp'
+            exact List.Nodup.sublist (List.take_sublist t s.idle) hnd
         · simp at h
           cases h
-          exact ⟨hnd, hdead, hfed, hsp⟩
+          exact ⟨hnd, hdead, hfed, hsp, hond, hdj, hpn⟩
   | rmv r n ok =>
     simp only [step] at h
     split at h
@@ -224,7 +304,7 @@ theorem J_step {s s' : State} (e : Ev) (hJ : J s) (h : step false s e = .ok s') 
           · rename_i hc
             cases h
             simp at hc
-            refine ⟨hnd.erase n, hdead, ?_, ?_⟩
+            refine ⟨hnd.erase n, hdead, ?_, ?_, hond, fun x hx => hdj x (List.mem_of_mem_erase hx), hpn⟩
             · intro hr
               obtain ⟨h1, h2, h3⟩ := hsp hr hcur.2 p hp
               obtain ⟨x, hx⟩ := List.exists_mem_of_ne_nil _ (h3 (List.ne_nil_of_mem hc))
@@ -249,17 +329,19 @@ theorem J_step {s s' : State} (e : Ev) (hJ : J s) (h : step false s e = .ok s') 
   | kill =>
     simp only [step] at h
     cases h
-    refine ⟨hnd, ?_, hfed, ?_⟩
+    refine ⟨hnd, ?_, hfed, ?_, hond, hdj, ?_⟩
     · intro _
       rfl
     · intro _ hl
       simp at hl
+    · intro p hp
+      simp at hp
   | stopAll =>
     simp only [step] at h
     split at h
     · cases h
     · cases h
-      refine ⟨hnd, hdead, ?_, ?_⟩
+      refine ⟨hnd, hdead, ?_, ?_, hond, hdj, hpn⟩
       · intro hr
         simp at hr
       · intro hr
@@ -273,7 +355,7 @@ theorem J_step {s s' : State} (e : Ev) (hJ : J s) (h : step false s e = .ok s') 
       · cases h
       · cases h
         have hrun' : s.running = false := by simpa using hrun
-        refine ⟨hnd.erase n, hdead, ?_, ?_⟩
+        refine ⟨hnd.erase n, hdead, ?_, ?_, hond, fun x hx => hdj x (List.mem_of_mem_erase hx), hpn⟩
         · intro hr
           have hr' : s.running = true := hr
           rw [hrun'] at hr'
@@ -375,6 +457,29 @@ theorem snapshot_split {s s' : State} {t : Nat} (hl : s.live = true)
 theorem idle_nodup {s : State} (h : Reach false s) : s.idle.Nodup :=
   (inv_reach h).nodup
 
+/-- no node is out of the list twice, and no node is both idle and out -/
+theorem out_nodup {s : State} (h : Reach false s) : s.out.Nodup :=
+  (inv_reach h).outNodup
+
+theorem idle_out_disjoint {s : State} (h : Reach false s) : ∀ x ∈ s.idle, x ∉ s.out :=
+  (inv_reach h).disj
+
+/-- while a pass of the live reaper is under way, at least as many workers are alive (idle or out with a job) as the
+    pass protects: the first min(numMinIdleWorkers(), snapshot length) nodes of its snapshot -/
+theorem reaper_keeps_minimum {s : State} {p : Pass} (h : Reach false s) (hr : s.running = true) (hl : s.live = true)
+    (hp : s.pass = some p) : p.prot.length ≤ s.idle.length + s.out.length := by
+  have hJ := inv_reach h
+  have hsub : ∀ x ∈ p.prot, x ∈ s.idle ++ s.out := by
+    intro x hx
+    exact List.mem_append.mpr ((hJ.spared hr hl p hp).1 x hx)
+  have := length_le_of_nodup_subset (hJ.protNodup p hp) hsub
+  simpa [List.length_append] using this
+
+/-- the moment the snapshot is taken: the pass protects min(target, idle length) nodes -/
+theorem snapshot_protects_min {s s' : State} {t : Nat} (hl : s.live = true) (h : step false s (.snap s.gen t) = .ok s') :
+    ∃ p, s'.pass = some p ∧ p.prot.length = min t s.idle.length :=
+  ⟨_, (snapshot_split hl h).2, List.length_take⟩
+
 /-! ## Concrete runs -/
 
 theorem reach_run {old : Bool} {s s' : State} {es : List Ev} (h : Reach old s)
@@ -442,6 +547,18 @@ example : ∃ s p, Reach false s ∧ s.running = true ∧ s.live = true ∧ s.pa
   ⟨passEnd, { prot := [1], cand := [2] }, reach_run Reach.init passRun_ok, rfl, rfl, rfl,
     by decide, by decide⟩
 
+/-- … the pass protects one node (target 1) and two workers are alive: `reaper_keeps_minimum` is not vacuous -/
+example : ∃ s p, Reach false s ∧ s.running = true ∧ s.live = true ∧ s.pass = some p ∧
+    p.prot.length = 1 ∧ s.idle.length + s.out.length = 2 :=
+  ⟨passEnd, { prot := [1], cand := [2] }, reach_run Reach.init passRun_ok, rfl, rfl, rfl, rfl, rfl⟩
+
+example : (1 : Nat) ≤ passEnd.idle.length + passEnd.out.length :=
+  reaper_keeps_minimum (p := { prot := [1], cand := [2] }) (reach_run Reach.init passRun_ok) rfl rfl rfl
+
+/-- … and the snapshot of `passEnd` (target 1 on an idle list of 2) protects min 1 2 = 1 node -/
+example : ∃ p, passEnd.pass = some p ∧ p.prot.length = min 1 2 :=
+  snapshot_protects_min (s := { passEnd with pass := none }) (t := 1) rfl rfl
+
 /-- … the candidate may be removed, which leaves the protected node idle -/
 example : (stateOf (step false passEnd (.rmv 0 2 true))).map (·.idle) = some [1] := by
   decide
@@ -469,4 +586,6 @@ end VarmqVerif
 #print axioms VarmqVerif.Reap.ended_run_cannot_remove
 #print axioms VarmqVerif.Reap.snapshot_split
 #print axioms VarmqVerif.Reap.idle_nodup
+#print axioms VarmqVerif.Reap.reaper_keeps_minimum
+#print axioms VarmqVerif.Reap.snapshot_protects_min
 #print axioms VarmqVerif.Reap.old_reaper_can_empty_the_pool
